@@ -23,15 +23,19 @@ META = dict(
          "trailing positions. There is no specification of the numerics and no exhaustive input space: this is "
          "exploration with TLC as the oracle of the structural relation.",
     note="Trusted: TLC, the integer logging (round(v/unit)), the 40-line generic caller. Prefix lengths are sampled "
-         "(quick: 8 lengths per series; thorough adds every length 1..120 on two series). Indicators raising on a short "
-         "input are skipped for that length (counted). Six public functions have no `sequential` parameter and are outside "
-         "the property; they are listed in the evidence.",
+         "(8 lengths per 300-candle series, 500/3400 on one long series; thorough adds every length 1..120 on two series). "
+         "Inputs are at least as long as the sum of the indicator's period parameters (below that several numba kernels "
+         "leave defined behaviour; the harness runs them with NUMBA_BOUNDSCHECK=1 and in forked children). Indicators "
+         "raising on an input are skipped for that length (counted). Discrete-valued fields are not judged on exactly "
+         "constant/periodic series (last-bit ties). Six public functions have no `sequential` parameter and are outside the "
+         "property; they are listed in the evidence.",
     design_ref="4/C13")
 
 KINDS_Q = [("random", 300, 1), ("trend", 300, 1), ("flat", 300, 1), ("spike", 300, 1)]
-KINDS_T = KINDS_Q + [("random", 300, 2), ("alternating", 300, 1), ("monotone", 300, 1),
-                     ("real", 300, 1), ("random", 300, 3, 2.0 ** 20), ("spike", 300, 4, 2.0 ** -20)]
+KINDS_T = KINDS_Q + [("random", 300, 2), ("alternating", 300, 1), ("monotone", 300, 1), ("real", 300, 1), ("real", 300, 2),
+                     ("trend", 300, 2), ("spike", 300, 3), ("random", 300, 3, 2.0 ** 20), ("spike", 300, 4, 2.0 ** -20)]
 PREFIXES = [20, 45, 64, 100, 150, 199, 241, 300]
+TIE_KINDS = ("flat", "alternating", "monotone")     # exactly constant / periodic inputs
 LONG = ("random", 3400, 5)
 LONG_PREFIXES = [500, 3400]
 
@@ -82,6 +86,7 @@ def job(item):
 
 def record(entry, kw, sp, prefixes, c, c2, ps, stats, only_field=None):
     runs = {}
+    discrete = set()
     lo = D.min_len(entry, kw)
     prefixes = [k for k in prefixes if k >= lo]
     for k in prefixes:
@@ -89,6 +94,7 @@ def record(entry, kw, sp, prefixes, c, c2, ps, stats, only_field=None):
         try:
             r = D.call(entry, c[:k], c2[:k], kw, True)
             runs[k] = {f: D.as_list(v) for f, v in D.fields_of(r)}
+            discrete.update(f for f, v in D.fields_of(r) if D.is_discrete(v))
         except Exception as ex:
             stats["skipped"] += 1
             stats["exc"][D.exc_name(ex)] = stats["exc"].get(D.exc_name(ex), 0) + 1
@@ -102,6 +108,11 @@ def record(entry, kw, sp, prefixes, c, c2, ps, stats, only_field=None):
             continue
         if ref is None:
             stats["not_series"].add(f)
+            continue
+        if f in discrete and sp[0] in TIE_KINDS:
+            # flags / strings are decided by float comparisons; on exactly periodic or constant inputs these are exact
+            # ties settled by the last bit, which legitimately differs between vectorised runs of different length
+            stats["discrete_on_tie_series"] = stats.get("discrete_on_tie_series", 0) + 1
             continue
         kind = "str" if any(D.kind_of(runs[k].get(f) or []) == "str" for k in ok) else "num"
         unit = D.scale_of(ref, ps) * 1e-6
@@ -124,7 +135,7 @@ def record(entry, kw, sp, prefixes, c, c2, ps, stats, only_field=None):
 def plan(ctx, cat):
     rng = random.Random(ctx.seed)
     specs = ctx.pick(KINDS_Q, KINDS_T)
-    nvar = ctx.pick(3, 6)
+    nvar = ctx.pick(3, 12)
     items = []
     for e in cat:
         if not e["sequential"]:
@@ -136,12 +147,12 @@ def plan(ctx, cat):
         # one long series: closed-form kernels whose powers overflow make EARLY values depend on the input length
         sp.append(LONG)
         pre.append(LONG_PREFIXES)
-        nv.append(ctx.pick(2, 4))
+        nv.append(ctx.pick(2, 6))
         if not ctx.quick:
             # every prefix length on two short series (defaults and one perturbed parameter set)
             sp += [("random", 120, 7), ("spike", 120, 7)]
             pre += [list(range(1, 121)), list(range(1, 121))]
-            nv += [2, 2]
+            nv += [3, 3]
         items.append((e, vs, sp, pre, nv))
     return items
 
@@ -154,10 +165,13 @@ def judge(ctx, traces, parts):
     for i, t in enumerate(traces):
         t["id"] = i + 1
     slim = [{"id": t["id"], "hdr": {k: t["hdr"][k] for k in ("kind", "exempt")}, "ev": t["ev"]} for t in traces]
-    verdicts, results = tlc.validate_traces("TraceCausal", "TraceCausal.cfg", slim, ctx.scratch, parts=parts, timeout=1500)
+    verdicts, results = tlc.validate_traces("TraceCausal", "TraceCausal.cfg", slim, ctx.scratch, parts=parts, timeout=2400,
+                                             heap=ctx.pick("1g", "2g"), max_procs=ctx.pick(16, 12))
     bad = 0
     for t in traces:
         l, v = verdicts[t["id"]]
+        if v.startswith("trace:"):
+            raise Machinery("malformed trace %s.%s: %s" % (t["hdr"]["ind"], t["hdr"]["field"], v))
         if v != "ok":
             bad += 1
             h = t["hdr"]
@@ -191,7 +205,7 @@ def run(ctx):
             else:
                 res.append(r)
     traces, calls, skipped, notseries, excs = [], 0, 0, {}, {}
-    per_ind = {}
+    per_ind, tie_skips = {}, 0
     for r in res:
         if r[0] == "EXC":
             raise Machinery("worker failed: %s" % r[1])
@@ -199,6 +213,7 @@ def run(ctx):
         traces += tr
         calls += st["calls"]
         skipped += st["skipped"]
+        tie_skips += st.get("discrete_on_tie_series", 0)
         per_ind[name] = per_ind.get(name, 0) + len(tr)
         if st["not_series"]:
             notseries[name] = st["not_series"]
@@ -222,6 +237,7 @@ def run(ctx):
     ctx.coverage.update({
         "traces_validated_against_impl": len(traces), "indicator_calls": calls, "calls_skipped_exception": skipped,
         "exception_classes": excs, "indicators_covered": len(per_ind), "interpreter_crashes": crashed,
+        "discrete_fields_not_judged_on_constant_or_periodic_series": tie_skips,
         "fields_covered": len({(t["hdr"]["ind"], t["hdr"]["field"]) for t in traces}),
         "outside_property_no_sequential_parameter": outside, "non_series_fields": notseries,
         "trace_events_checked_by_tlc": sum(r.generated for r in results), "rejected_traces": bad,
@@ -234,7 +250,10 @@ def run(ctx):
         "tolerance: two runs agree at a position when their tokens round(v/unit) differ by at most 1, unit = 1e-6 x "
         "max(|finite values of the longest run|, 1e-6 x max close); NaN, +inf and -inf only equal themselves",
         "an indicator that raises on a (short) input is skipped for that length",
-        "the second candle array of beta/rsmk is an independent series cut to the same prefix"]
+        "the second candle array of beta/rsmk is an independent series cut to the same prefix",
+        "fields with discrete values (strings, booleans, integer codes) are not judged on exactly constant or periodic "
+        "series (flat, alternating, monotone): there the deciding float comparisons are exact ties settled by the last bit, "
+        "which differs between vectorised (BLAS) runs of different length (seen: hull_suit.signal, Thma mode)"]
 
 
 def replay(ctx, rp):
